@@ -105,6 +105,7 @@ package taint
 //    summaries) whatever the summarisation mode -- a global-access node that is not
 //    a read (its out-edges are not followed) has run that scan.
 //@ func Visitor.Visit
+//@   loops 31
 //@   property C02 C01 C05
 //@   option havoc:*
 //@   requires v != nil && s != nil
